@@ -193,6 +193,40 @@ public:
     std::string str () const { return s.empty () ? "{}" : s + "}"; }
 };
 
+// Fixed-capacity open-addressing set of 64-bit hashes (no allocation per insert).
+// Once `cap` distinct hashes are stored further ones are dropped, so the
+// count it yields is a lower bound on the number of distinct cases.
+class HashSet
+{
+    std::vector<uint64_t> tab; // 0 = empty slot
+    size_t                n = 0, cap;
+    bool                  has_zero = false;
+
+public:
+    explicit HashSet (size_t capacity = 1u << 18) : cap (capacity) {}
+    size_t size () const { return n + (has_zero ? 1 : 0); }
+    bool   insert (uint64_t h)
+    {
+        if (h == 0) { bool fresh = !has_zero; has_zero = true; return fresh; }
+        if (tab.empty ()) tab.assign (cap * 2, 0);
+        size_t mask = tab.size () - 1, i = (size_t) splitmix64 (h) & mask;
+        while (tab[i] != 0)
+        {
+            if (tab[i] == h) return false;
+            i = (i + 1) & mask;
+        }
+        if (n >= cap) return false;
+        tab[i] = h;
+        ++n;
+        return true;
+    }
+    template <class F> void for_each (F f) const
+    {
+        if (has_zero) f ((uint64_t) 0);
+        for (uint64_t h: tab) if (h) f (h);
+    }
+};
+
 // ---------------------------------------------------------------- per-thread context
 struct Violation
 {
@@ -218,13 +252,12 @@ struct Ctx
 
     uint64_t                          evals = 0;
     uint64_t                          nontrivial_direct = 0; // distinct by construction (enumerations)
-    std::unordered_set<uint64_t>      nontrivial_hashes;     // distinct by hash (random generators)
+    HashSet                           nontrivial_hashes;     // distinct by hash (random generators)
     std::map<std::string, uint64_t>   classes;
     std::map<std::string, WorstRec>   worsts;
     std::map<std::string, std::string> samples;              // one literal sample per label
     std::map<std::string, Violation>  viols;                 // first (lowest idx) witness per key
 
-    static constexpr size_t kMaxHashes = 1u << 20;
 
     Rng rng (uint64_t idx) const { return Rng (seed, sub_id, idx); }
 
@@ -234,7 +267,7 @@ struct Ctx
     // a distinct non-trivial case, identified by a hash of its inputs
     void nontrivial (uint64_t h)
     {
-        if (nontrivial_hashes.size () < kMaxHashes) nontrivial_hashes.insert (h);
+        nontrivial_hashes.insert (h);
     }
     // n distinct non-trivial cases known distinct by construction (exhaustive enumeration)
     void nontrivial_enum (uint64_t n) { nontrivial_direct += n; }
@@ -325,8 +358,7 @@ merge (Ctx& into, Ctx& from)
 {
     into.evals += from.evals;
     into.nontrivial_direct += from.nontrivial_direct;
-    for (uint64_t h: from.nontrivial_hashes)
-        if (into.nontrivial_hashes.size () < 4 * Ctx::kMaxHashes) into.nontrivial_hashes.insert (h);
+    from.nontrivial_hashes.for_each ([&] (uint64_t h) { into.nontrivial_hashes.insert (h); });
     for (auto& kv: from.classes) into.classes[kv.first] += kv.second;
     for (auto& kv: from.worsts)
     {
@@ -460,6 +492,7 @@ monitor_main (int argc, char** argv, const char* monitor_name)
         }
         for (auto& t: th) t.join ();
         Ctx total;
+        total.nontrivial_hashes = HashSet (1u << 22);
         for (auto& c: ctxs) merge (total, c);
         double sub_wall = std::chrono::duration<double> (std::chrono::steady_clock::now () - ts0).count ();
 
@@ -467,7 +500,7 @@ monitor_main (int argc, char** argv, const char* monitor_name)
         for (auto& r: s.required)
             if (!total.classes.count (r) || total.classes[r] == 0) missing.push_back (r);
         if (!missing.empty () && scale >= 1.0) inconclusive = true; // a sampled (sanitizer) run may legitimately miss rare classes
-        if (total.evals == 0) inconclusive = true;
+        if (total.evals == 0 && scale >= 1.0) inconclusive = true;
 
         uint64_t nontriv = total.nontrivial_direct + total.nontrivial_hashes.size ();
         total_evals += total.evals;
